@@ -4,12 +4,16 @@ CONSTANTS
   Roles = {"server", "client"}
   Limits = {0}
   MaxFrames = 2
+  JudgeRsv1NonFirst = TRUE
   Family = "bufsize"
   Alpha <- GenAlpha
   Probe <- Probes
   AcceptTopBit = FALSE
   LimitPerFrame = FALSE
   PongEmpty = FALSE
+  Compress = {FALSE}
+  Rsv1Shadows = FALSE
+  Rsv1Anywhere = FALSE
   BufSizes = {0, 1, 2, 13, 14, 15, 64, 124, 125, 126, 1024}
   CtlNeedsBuffer = FALSE
 INVARIANTS Emit
